@@ -173,16 +173,47 @@ def oracle(case, rec):
             if ok:
                 check_net(rec, net, "set_edge_list", g, n, A, w, attrs)
     # igraph object
-    def from_igraph():
-        gr = igraph.Graph(n=n, edges=[tuple(e) for e in g["edges"]],
-                          directed=directed)
+    # igraph objects list their edges in ANY order (and undirected edges in
+    # either orientation): the generated key list permutes / flips them
+    keys = (list(case.get("ekeys") or []) + [0] * E)[:E]
+    order = sorted(range(E), key=lambda i: (keys[i] // 2, i))
+    el = []
+    for i in order:
+        a, b = g["edges"][i]
+        el.append((b, a) if (not directed and keys[i] % 2) else (a, b))
+    if el != [tuple(e) for e in g["edges"]]:
+        rec.label("igraph_edges_unsorted")
+
+    def mk_igraph():
+        gr = igraph.Graph(n=n, edges=el, directed=directed)
         gr.vs["node_weight_nsi"] = list(w)
         for name, Wm in attrs.items():
             gr.es[name] = [float(Wm[e.tuple]) for e in gr.es]
-        return Network.FromIGraph(gr, silence_level=3)
+        return gr
+
+    def from_igraph():
+        return Network.FromIGraph(mk_igraph(), silence_level=3)
     ok, net = rec.call("from_igraph_construct", from_igraph)
     if ok:
         check_net(rec, net, "from_igraph", g, n, A, w, attrs)
+        ok, cp = rec.call("from_igraph_copy_raises", net.copy)
+        if ok:
+            check_net(rec, cp, "from_igraph_copy", g, n, A, w, attrs)
+    # files written by igraph itself (not by Network.save)
+    for fmt in ("graphml", "pickle"):
+        fn = "ig_%s.%s" % (os.getpid(), fmt)
+
+        def load_foreign(fmt=fmt, fn=fn):
+            mk_igraph().write(fn, format=fmt)
+            try:
+                return Network.Load(fn, fileformat=fmt, silence_level=3)
+            finally:
+                if os.path.exists(fn):
+                    os.remove(fn)
+        ok, net = rec.call("load_foreign_%s_raises" % fmt, load_foreign)
+        if ok:
+            check_net(rec, net, "load_foreign_%s" % fmt, g, n, A, w, attrs,
+                      tol=0.0 if fmt == "pickle" else TEXT_TOL)
     if base is None:
         return
     ok, net = rec.call("copy_raises", base.copy)
@@ -321,7 +352,8 @@ def enum_small(tier):
         idx += 1
         yield {"g": g, "w": _w(n, idx % 5) if idx % 3 else None,
                "la": _attr(n, g["directed"], idx % 4),
-               "lb": _attr(n, g["directed"], 2) if idx % 2 else None}
+               "lb": _attr(n, g["directed"], 2) if idx % 2 else None,
+               "ekeys": [(7 * idx + 5 * k) % 11 for k in range(12)]}
 
 
 @st.composite
@@ -331,7 +363,8 @@ def cases(draw, n_min=2, n_max=12):
     n = g["n"]
     return {"g": g, "w": draw(st.one_of(st.none(), G.node_weights(n))),
             "la": draw(st.one_of(st.none(), G.link_attr(n, directed))),
-            "lb": draw(st.one_of(st.none(), G.link_attr(n, directed)))}
+            "lb": draw(st.one_of(st.none(), G.link_attr(n, directed))),
+            "ekeys": draw(st.lists(st.integers(0, 15), max_size=70))}
 
 
 @st.composite
